@@ -57,6 +57,30 @@ class IntArray(_np.ndarray):
         _np.ndarray.__setitem__(self, k, v)
 
 
+class SymArray(_np.ndarray):
+    """object array whose comparisons fork immediately and yield a plain boolean array, so that boolean-mask
+    indexing (`a[a > cap] = cap`) works on symbolic entries."""
+
+    def _cmp(self, other, op):
+        A, B = _np.broadcast_arrays(_np.asarray(self, dtype=object), _obj(other))
+        out = _np.empty(A.shape, dtype=bool)
+        for i, (x, y) in enumerate(zip(A.flat, B.flat)):
+            out.flat[i] = bool(op(x, y))
+        return out
+
+    def __gt__(self, o):
+        return self._cmp(o, lambda a, b: a > b)
+
+    def __ge__(self, o):
+        return self._cmp(o, lambda a, b: a >= b)
+
+    def __lt__(self, o):
+        return self._cmp(o, lambda a, b: a < b)
+
+    def __le__(self, o):
+        return self._cmp(o, lambda a, b: a <= b)
+
+
 def _map(f, x):
     a = _obj(x)
     out = _np.empty(a.shape, dtype=object)
@@ -66,8 +90,9 @@ def _map(f, x):
 
 
 class NpProxy:
-    def __init__(self, active=lambda: eng() is not None):
+    def __init__(self, active=lambda: eng() is not None, symarray=False):
         self._active = active
+        self._symarray = symarray
 
     def __getattr__(self, n):
         return getattr(_np, n)
@@ -122,8 +147,9 @@ class NpProxy:
         return _np.linspace(a, b, n, **k)
 
     def append(self, a, b, *r, **k):
-        if _has_sym(a) or _has_sym(b):
-            return _np.array(list(_obj(a).flat) + list(_obj(b).flat), dtype=object)
+        if _has_sym(a) or _has_sym(b) or (self._symarray and self._active() and not r and not k):
+            out = _np.array(list(_obj(a).flat) + list(_obj(b).flat), dtype=object)
+            return out.view(SymArray) if self._symarray else out
         return _np.append(a, b, *r, **k)
 
     def concatenate(self, seq, *r, **k):
@@ -323,7 +349,8 @@ def sym_isinstance(o, t):
 class patched:
     """context manager: rebind module globals (np, isinstance, ...) and restore afterwards."""
 
-    def __init__(self, *mods, np=True, isinstance_=False, extra=None):
+    def __init__(self, *mods, np=True, isinstance_=False, extra=None, symarray=False):
+        self.symarray = symarray
         self.mods = mods
         self.np = np
         self.isinstance_ = isinstance_
@@ -331,7 +358,7 @@ class patched:
         self.saved = []
 
     def __enter__(self):
-        prox = NpProxy()
+        prox = NpProxy(symarray=self.symarray)
         for m in self.mods:
             if self.np and hasattr(m, "np"):
                 self.saved.append((m, "np", m.np))
